@@ -5,6 +5,7 @@ import (
 	"context"
 	"encoding/base64"
 	"errors"
+	"fmt"
 	"io"
 	"log/slog"
 	"net/http"
@@ -14,6 +15,8 @@ import (
 
 	"github.com/regclient/regclient/config"
 	"github.com/regclient/regclient/internal/auth"
+	"github.com/regclient/regclient/internal/pqueue"
+	"github.com/regclient/regclient/internal/reqmeta"
 	"github.com/regclient/regclient/types/errs"
 )
 
@@ -28,6 +31,7 @@ type zzFaultNet struct {
 	realmN        int
 	rotate        bool
 	cdnChallenged bool
+	cutN          int
 	lastBad       map[string]time.Time
 	badN          map[string]int
 }
@@ -41,6 +45,20 @@ type zzCall struct {
 
 var errZZConn = errors.New("zz: connection reset")
 
+type zzCutBody struct {
+	data string
+	off  int
+}
+
+func (b *zzCutBody) Read(p []byte) (int, error) {
+	if b.off >= len(b.data) {
+		return 0, io.ErrUnexpectedEOF
+	}
+	n := copy(p, b.data[b.off:])
+	b.off += n
+	return n, nil
+}
+
 func (n *zzFaultNet) RoundTrip(req *http.Request) (*http.Response, error) {
 	c := zzCall{host: req.URL.Host, scheme: req.URL.Scheme, auth: req.Header.Get("Authorization"), method: req.Method, at: time.Now()}
 	status := 200
@@ -51,11 +69,15 @@ func (n *zzFaultNet) RoundTrip(req *http.Request) (*http.Response, error) {
 			n.cdnChallenged = true
 		}
 	} else if len(n.calls) < n.budget {
-		alphabet := []int{200, 401, 404, 429, 500, 502, -1, 1429}
+		alphabet := []int{200, 401, 404, 429, 500, 502, -1, 1429, 2200} // 2200: a 200 whose body breaks off after one byte
 		if zzNextForC11 {
 			alphabet = []int{200, 401, 404, 500, -1, 307} // confinement: plus a redirect to a host that is not configured
 		}
 		status = alphabet[zzInt("reply", 0, len(alphabet)-1)]
+	}
+	cut := false
+	if status == 2200 {
+		status, cut = 200, true
 	}
 	retryAfter := false
 	if status == 1429 { // 429 that asks for a one second pause
@@ -86,8 +108,23 @@ func (n *zzFaultNet) RoundTrip(req *http.Request) (*http.Response, error) {
 	if status == 200 {
 		body = "ok"
 		h.Set("Content-Length", "2")
+		if rg := req.Header.Get("Range"); rg != "" {
+			// a resume: serve the rest of the content
+			zzReach("range_resume_requested")
+			status = 206
+			body = "k"
+			h.Set("Content-Length", "1")
+			h.Set("Content-Range", "bytes 1-1/2")
+		} else if cut {
+			body = "o" // the connection drops before the second byte
+			n.cutN++
+		}
 	}
-	return &http.Response{StatusCode: status, Status: strconv.Itoa(status), Header: h, Body: io.NopCloser(strings.NewReader(body)), Request: req}, nil
+	var rdr io.Reader = strings.NewReader(body)
+	if cut && status == 200 {
+		rdr = &zzCutBody{data: body} // as net/http: a body shorter than its Content-Length ends in io.ErrUnexpectedEOF
+	}
+	return &http.Response{StatusCode: status, Status: strconv.Itoa(status), Header: h, Body: io.NopCloser(rdr), Request: req}, nil
 }
 
 const zzCDN = "cdn.example" // a redirect target that is not a configured host
@@ -112,7 +149,9 @@ func zzMkClient(net *zzFaultNet, retry int, mirrorTLS config.TLSConf, withMirror
 	lg := slog.New(slog.NewTextHandler(io.Discard, nil))
 	mk := func(name string, cfg *config.Host) {
 		cfg.Name, cfg.Hostname = name, name
-		c.host[name] = &clientHost{config: cfg, httpClient: &http.Client{Transport: &wrapTransport{c: c, orig: net}}, auth: map[string]*auth.Auth{}, slog: lg}
+		// one concurrency slot per host: a slot that is not given back blocks the host for good
+		c.host[name] = &clientHost{config: cfg, httpClient: &http.Client{Transport: &wrapTransport{c: c, orig: net}}, auth: map[string]*auth.Auth{}, slog: lg,
+			throttle: pqueue.New(pqueue.Opts[reqmeta.Data]{Max: 1})}
 	}
 	up := &config.Host{TLS: config.TLSEnabled, User: zzUpUser, Pass: zzUpPass, Priority: 1}
 	if withMirror {
@@ -161,7 +200,20 @@ func ZZC12_next() {
 	if forC11 && zzBool("caller_headers") {
 		hdrs = http.Header{"Accept": {"application/vnd.oci.image.manifest.v1+json"}}
 	}
-	resp, err := c.Do(context.Background(), &Req{Host: zzUp, Method: method, Repository: "repo", Path: "manifests/tag", NoMirrors: noMirrors, IgnoreErr: ignoreErr, Headers: hdrs})
+	req := &Req{Host: zzUp, Method: method, Repository: "repo", Path: "manifests/tag", NoMirrors: noMirrors, IgnoreErr: ignoreErr, Headers: hdrs}
+	if method == "PUT" && !zzNextForC11 && zzBool("streamed_body") {
+		// a body that can be produced once only (a pipe): asking again is a not-retryable error
+		produced := false
+		req.BodyLen = 2
+		req.BodyFunc = func() (io.ReadCloser, error) {
+			if produced {
+				return nil, fmt.Errorf("body cannot be produced again%.0w", errs.ErrNotRetryable)
+			}
+			produced = true
+			return io.NopCloser(strings.NewReader("xy")), nil
+		}
+	}
+	resp, err := c.Do(context.Background(), req)
 	zzReach("do_returned")
 	// (i) bounded attempts
 	attempts := 0
@@ -174,7 +226,7 @@ func ZZC12_next() {
 	// (ii) recovery: the loop only gives up for a reason
 	faults := 0
 	for _, cl := range net.calls {
-		if cl.status != 200 {
+		if cl.status != 200 && cl.status != 206 {
 			faults++
 		}
 	}
@@ -182,7 +234,20 @@ func ZZC12_next() {
 		zzReach("do_succeeded")
 		zzAssert(resp != nil && resp.HTTPResponse().StatusCode == 200, "success_means_a_2xx_reply")
 		b, rerr := io.ReadAll(resp)
-		zzAssert(rerr == nil && string(b) == "ok", "body_of_the_good_reply_is_delivered")
+		if rerr != nil {
+			// the reply broke off: a failed read is in order only when the faults have reached the limit
+			// or the request (a streamed body) cannot be sent again
+			zzReach("read_of_a_cut_reply_failed")
+			faults = 0 // recount: the resume made further calls
+			for _, cl := range net.calls {
+				if cl.status != 200 && cl.status != 206 {
+					faults++
+				}
+			}
+			zzAssert(net.cutN > 0 && (faults+net.cutN >= R || req.BodyFunc != nil), "fewer_faults_than_the_limit_are_absorbed")
+		} else {
+			zzAssert(string(b) == "ok", "body_of_the_good_reply_is_delivered")
+		}
 		_ = resp.Close()
 	} else {
 		zzReach("do_failed")
@@ -191,12 +256,25 @@ func ZZC12_next() {
 			zzReach("retry_limit_reached")
 		}
 	}
+	// every concurrency slot the request took has been given back
+	for _, hn := range []string{zzUp, zzMirror} {
+		if h, ok := c.host[hn]; ok {
+			done, terr := h.throttle.TryAcquire(context.Background(), reqmeta.Data{})
+			zzAssert(terr == nil && done != nil, "C17_request_gives_its_slot_back")
+			if done != nil {
+				done()
+			}
+		}
+	}
 	// (iii) back-off: after a back-off class failure the same host is not asked again before the delay has passed.
 	// Judged under virtual time only: the delay is counted from the instant the previous attempt was due, so
 	// with an arbitrary clock a late previous attempt legitimately shortens the observable gap.
 	for i, cl := range net.calls {
 		if !virtual {
 			break
+		}
+		if ignoreErr && net.cutN > 0 {
+			break // requests that ask for errors to be ignored record no back-off by design; a resume lists the hosts afresh
 		}
 		for j := i - 1; j >= 0; j-- {
 			if net.calls[j].host != cl.host {
